@@ -196,6 +196,9 @@ impl FixedStruct {
 pub type ResultS3FixedStructFind = ResultS3<(FileOffset, FixedStruct), (Option<FileOffset>, Error)>;
 #[verifier::external_body]
 pub fn verif_error() -> Error { unimplemented!() }
+/// stand-in (R9) for `counter += 1` on a u64 statistics counter: assumed not to overflow (2^64 records)
+#[verifier::external_body]
+pub fn verif_count_inc(c: &mut Count) { unimplemented!() }
 /// stand-in (R9) for `slice_.iter_mut().for_each(|m| *m = 0)`
 #[verifier::external_body]
 pub fn verif_zero(s: &mut [u8])
@@ -252,7 +255,6 @@ impl FixedStructReader {
         &&& self.blockreader.file().len() + ENTRY_SZ_MAX <= u64::MAX
         &&& self.blockreader.file().len() == self.n() * self.fixedstruct_type.esz()
         &&& keys_ok(self.map_tvpair_fo@, self.blockreader.file(), self.fixedstruct_type, self.n())
-        &&& self.entries_processed < u64::MAX
     }
     pub open spec fn same_except_map(&self, o: &Self) -> bool {
         &&& self.blockreader.file() == o.blockreader.file()
@@ -262,20 +264,20 @@ impl FixedStructReader {
     // assumed: caches, statistics and block dropping do not touch the time->offset map or the file content
     #[verifier::external_body]
     fn remove_cache_entry(&mut self, fileoffset: FileOffset) -> (r: Option<FixedStruct>)
-        ensures final(self).same_except_map(old(self)), final(self).map_tvpair_fo == old(self).map_tvpair_fo, final(self).entries_processed == old(self).entries_processed,
+        ensures final(self).same_except_map(old(self)), final(self).map_tvpair_fo == old(self).map_tvpair_fo,
             r is Some ==> r.unwrap().fo_spec() == fileoffset
     { unimplemented!() }
     #[verifier::external_body]
     fn dt_first_last_update(&mut self, datetime: &DateTimeL)
-        ensures final(self).same_except_map(old(self)), final(self).map_tvpair_fo == old(self).map_tvpair_fo, final(self).entries_processed == old(self).entries_processed
+        ensures final(self).same_except_map(old(self)), final(self).map_tvpair_fo == old(self).map_tvpair_fo
     { unimplemented!() }
     #[verifier::external_body]
     fn drop_entry(&mut self, fixedstruct: &FixedStruct) -> (r: usize)
-        ensures final(self).same_except_map(old(self)), final(self).map_tvpair_fo == old(self).map_tvpair_fo, final(self).entries_processed == old(self).entries_processed
+        ensures final(self).same_except_map(old(self)), final(self).map_tvpair_fo == old(self).map_tvpair_fo
     { unimplemented!() }
     #[verifier::external_body]
     fn set_error(&mut self, error: &Error)
-        ensures final(self).same_except_map(old(self)), final(self).map_tvpair_fo == old(self).map_tvpair_fo, final(self).entries_processed == old(self).entries_processed
+        ensures final(self).same_except_map(old(self)), final(self).map_tvpair_fo == old(self).map_tvpair_fo
     { unimplemented!() }
 
 //@cut fn path=src/readers/fixedstructreader.rs impl=FixedStructReader name=filesz ret=r
@@ -325,13 +327,14 @@ impl FixedStructReader {
 //@cut fn path=src/readers/fixedstructreader.rs impl=FixedStructReader name=process_entry_at ret=r
 //@replace "slice_.iter_mut().for_each(|m| *m = 0);" "verif_zero(slice_);"
 //@replace "&slice_," "slice_,"
+//@replace "self.entries_processed += 1;" "verif_count_inc(&mut self.entries_processed);"
 //@desugar_for 1 it
 //@spec
     requires
         old(self).wf(),
         fo as int == (fo as int / old(self).fixedstruct_type.esz()) * old(self).fixedstruct_type.esz(),
     ensures
-        final(self).same_except_map(old(self)),
+        final(self).same_except_map(old(self)), final(self).wf(),
         keys_ok(final(self).map_tvpair_fo@, old(self).blockreader.file(), old(self).fixedstruct_type, old(self).n()),
         fo as int >= old(self).blockreader.file().len() ==> r is Done && final(self).map_tvpair_fo@ == old(self).map_tvpair_fo@,
         // C08: exactly the record at `fo` leaves the collection; the returned next offset is its successor
@@ -339,6 +342,7 @@ impl FixedStructReader {
         (fo as int) < old(self).blockreader.file().len() ==> ({
             let kk = key_of(old(self).blockreader.file(), old(self).fixedstruct_type, fo as int / old(self).fixedstruct_type.esz());
             &&& final(self).map_tvpair_fo@ == (if old(self).map_tvpair_fo@.contains_key(kk) { old(self).map_tvpair_fo@.remove(kk) } else { old(self).map_tvpair_fo@ })
+            &&& !(r is Done)
             &&& r is Found ==> r->Found_0.1.fo_spec() == fo
             &&& (r is Found && old(self).map_tvpair_fo@.contains_key(kk)) ==>
                     next_after(old(self).map_tvpair_fo@, old(self).blockreader.file(), old(self).fixedstruct_type, kk, r->Found_0.0)
@@ -536,6 +540,314 @@ pub proof fn lemma_represents_skip(m: Map<Key, FileOffset>, file: Seq<u8>, ft: F
         if k < j { }
     }
 }
+
+
+// =====================================================================================================
+// the worker that drives the reader: exec_fixedstructprocessor (src/bin/s4.rs).  Here process_entry_at and
+// fileoffset_first are the functions verified above (not stubs).
+#[verifier::external_body]
+pub struct String { _p: u8 }
+impl Clone for String { #[verifier::external_body] fn clone(&self) -> (r: Self) ensures r == *self { unimplemented!() } }
+impl Error { #[verifier::external_body] pub fn to_string(&self) -> String { unimplemented!() } }
+pub type FPath = String;
+pub type PathId = usize;
+pub type BlockSz = u64;
+impl Copy for FixedOffset {}
+impl Clone for FixedOffset { #[verifier::external_body] fn clone(&self) -> (r: Self) ensures r == *self { unimplemented!() } }
+#[verifier::external_body]
+pub struct SystemTime { _p: u8 }
+#[verifier::external_body]
+pub struct ThreadId { _p: u8 }
+#[verifier::external_body]
+pub struct Summary { _p: u8 }
+pub type SummaryOpt = Option<Summary>;
+#[verifier::external_body]
+pub struct JournalOutput { _p: u8 }
+#[verifier::external_body]
+pub fn systemtime_to_datetime(tz: &FixedOffset, st: &SystemTime) -> DateTimeL { unimplemented!() }
+#[verifier::external_body]
+pub struct Sysline { _p: u8 }
+pub type SyslineP = std::sync::Arc<Sysline>;
+#[verifier::external_body]
+pub struct Evtx { _p: u8 }
+#[verifier::external_body]
+pub struct JournalEntry { _p: u8 }
+//@cut type kind=enum path=src/common.rs name=FileTypeArchive derives=Clone,Copy
+//@end
+//@cut type kind=enum path=src/common.rs name=FileTypeFixedStruct derives=Clone,Copy
+//@end
+//@cut type kind=enum path=src/common.rs name=FileTypeTextEncoding derives=Clone,Copy
+//@end
+//@cut type kind=enum path=src/common.rs name=FileType derives=Clone,Copy
+//@end
+//@cut type kind=enum path=src/common.rs name=LogMessageType derives=Clone,Copy
+//@replace "#[default]" ""
+//@end
+//@cut type kind=enum path=src/common.rs name=FileProcessingResult derives=
+//@end
+pub type FileProcessingResultBlockZero = FileProcessingResult<Error>;
+//@cut type kind=const path=src/bin/s4.rs name=FILEERRSTUB
+//@end
+//@cut type kind=const path=src/bin/s4.rs name=FILEOK
+//@end
+//@cut type kind=enum path=src/bin/s4.rs name=LogMessageSpecificData derives=
+//@end
+//@cut type kind=type path=src/bin/s4.rs name=ThreadInitData
+//@replace "type ThreadInitData" "pub type ThreadInitData"
+//@end
+//@cut type kind=type path=src/bin/s4.rs name=IsLastLogMessage
+//@replace "type IsLastLogMessage" "pub type IsLastLogMessage"
+//@end
+//@cut type kind=enum path=src/data/common.rs name=LogMessage derives=
+//@end
+//@cut type kind=enum path=src/bin/s4.rs name=ChanDatum derives=
+//@replace "enum ChanDatum" "pub enum ChanDatum"
+//@end
+//@cut type kind=enum path=src/readers/fixedstructreader.rs name=ResultFixedStructReaderNew derives=
+//@end
+#[verifier::external_body]
+pub struct ChanSendDatum { _p: u8 }
+impl ChanSendDatum {
+    pub uninterp spec fn log(&self) -> Seq<ChanDatum>;
+    #[verifier::external_body]
+    pub fn send(&mut self, d: ChanDatum) -> (r: core::result::Result<(), Error>)
+        ensures final(self).log() == old(self).log().push(d)
+    { unimplemented!() }
+}
+pub open spec fn open_ok(l: Seq<ChanDatum>) -> bool {
+    l.len() >= 1 && l[0] is FileInfo && forall|i: int| 0 < i < l.len() ==> #[trigger] l[i] is NewMessage
+}
+pub open spec fn closed_ok(l: Seq<ChanDatum>) -> bool {
+    l.len() >= 2 && l[0] is FileInfo && l.last() is FileSummary && forall|i: int| 0 < i < l.len() - 1 ==> #[trigger] l[i] is NewMessage
+}
+//@cut fn path=src/bin/s4.rs name=chan_send
+//@replace "chan_send_dt: &ChanSendDatum" "chan_send_dt: &mut ChanSendDatum"
+//@spec
+    ensures final(chan_send_dt).log() == old(chan_send_dt).log().push(chan_datum)
+//@end
+impl Summary {
+    #[verifier::external_body]
+    pub fn new_failed(path: FPath, filetype: FileType, logmessagetype: LogMessageType, blocksz: BlockSz, error: Option<String>) -> Summary { unimplemented!() }
+}
+/// ghost: the record file behind `path`, its layout and window, as functions of the worker's arguments
+pub uninterp spec fn fx_file(path: FPath) -> Seq<u8>;
+pub uninterp spec fn fx_type(path: FPath) -> FixedStructType;
+impl FixedStructReader {
+    // assumed: `new` stores what preprocess_timevalues returned (contract proved above) and the file/layout it probed
+    #[verifier::external_body]
+    pub fn new(path: FPath, filetype: FileType, blocksz: BlockSz, tz_offset: FixedOffset, dt_filter_after: DateTimeLOpt, dt_filter_before: DateTimeLOpt) -> (r: ResultFixedStructReaderNew<Error>)
+        ensures r is FileOk ==> r->FileOk_0.wf() && r->FileOk_0.blockreader.file() == fx_file(path) && r->FileOk_0.fixedstruct_type == fx_type(path)
+            && represents(r->FileOk_0.map_tvpair_fo@, fx_file(path), fx_type(path), otv(dt_filter_after), otv(dt_filter_before), r->FileOk_0.n())
+    { unimplemented!() }
+    #[verifier::external_body]
+    pub fn mtime(&self) -> SystemTime { unimplemented!() }
+    #[verifier::external_body]
+    pub fn summary_complete(&self) -> Summary { unimplemented!() }
+    #[verifier::external_body]
+    pub fn is_last(&self, fixedstruct: &FixedStruct) -> (r: bool) { unimplemented!() }
+}
+/// file offset of the record carried by a datum
+pub open spec fn rec_fo(d: ChanDatum) -> int {
+    match d { ChanDatum::NewMessage(LogMessage::FixedStruct(fs), _) => fs.fo_spec() as int, _ => -1 }
+}
+/// C08: the records sent so far are records of the initial selection `m0`, in strictly increasing (time, file offset)
+/// order, and each of them is smaller than every record still to come (`rem`)
+pub open spec fn fx_sent_ok(l: Seq<ChanDatum>, m0: Map<Key, FileOffset>, rem: Map<Key, FileOffset>, file: Seq<u8>, ft: FixedStructType) -> bool {
+    &&& forall|i: int| 0 < i < l.len() ==> (#[trigger] l[i]) is NewMessage && rec_fo(l[i]) >= 0
+            && m0.contains_key(key_of(file, ft, rec_fo(l[i]) / ft.esz())) && m0[key_of(file, ft, rec_fo(l[i]) / ft.esz())] as int == rec_fo(l[i])
+            && !rem.contains_key(key_of(file, ft, rec_fo(l[i]) / ft.esz()))
+    &&& forall|i: int, j: int| 0 < i < j < l.len() ==> key_lt(key_of(file, ft, rec_fo(#[trigger] l[i]) / ft.esz()), key_of(file, ft, rec_fo(#[trigger] l[j]) / ft.esz()))
+    &&& forall|i: int, k: Key| 0 < i < l.len() && #[trigger] rem.contains_key(k) ==> key_lt(key_of(file, ft, rec_fo(#[trigger] l[i]) / ft.esz()), k)
+    &&& forall|k: Key| #[trigger] rem.contains_key(k) ==> m0.contains_key(k) && m0[k] == rem[k]
+}
+/// every selected record has been sent (each exactly once, by fx_sent_ok's strict order)
+pub open spec fn fx_complete(l: Seq<ChanDatum>, m0: Map<Key, FileOffset>) -> bool {
+    forall|k: Key| #[trigger] m0.contains_key(k) ==> exists|i: int| 0 < i < l.len() && rec_fo(#[trigger] l[i]) == m0[k] as int
+}
+pub open spec fn is_least(m: Map<Key, FileOffset>, k0: Key) -> bool {
+    m.contains_key(k0) && forall|k2: Key| #[trigger] m.contains_key(k2) ==> !key_lt(k2, k0)
+}
+pub proof fn lemma_key_total(a: Key, b: Key)
+    ensures key_lt(a, b) || a == b || key_lt(b, a), !(key_lt(a, b) && key_lt(b, a)), !key_lt(a, a)
+{}
+pub proof fn lemma_key_trans(a: Key, b: Key, c: Key)
+    requires key_lt(a, b), key_lt(b, c) ensures key_lt(a, c)
+{}
+
+
+/// a key of a well-formed collection sits at a valid record offset
+pub proof fn lemma_key_offset(m: Map<Key, FileOffset>, file: Seq<u8>, ft: FixedStructType, n: int, k: Key)
+    requires keys_ok(m, file, ft, n), m.contains_key(k), ft.esz() >= 1, file.len() == n * ft.esz()
+    ensures
+        m[k] == k.1, k.1 as int == (k.1 as int / ft.esz()) * ft.esz(), (k.1 as int) < file.len(),
+        k == key_of(file, ft, k.1 as int / ft.esz()),
+{
+    let j = k.1 as int / ft.esz();
+    assert(j * ft.esz() < n * ft.esz()) by (nonlinear_arith) requires 0 <= j < n, ft.esz() >= 1;
+}
+/// after removing the least key kk, the offset x that process_entry_at returned is the least remaining record
+/// (or the end of the file when nothing remains)
+pub proof fn lemma_after_entry(rem: Map<Key, FileOffset>, file: Seq<u8>, ft: FixedStructType, n: int, kk: Key, x: FileOffset)
+    requires
+        keys_ok(rem, file, ft, n), ft.esz() >= 1, file.len() == n * ft.esz(),
+        is_least(rem, kk), next_after(rem, file, ft, kk, x),
+    ensures
+        ((x as int) < file.len() && is_least(rem.remove(kk), key_of(file, ft, x as int / ft.esz())) && x as int == (x as int / ft.esz()) * ft.esz())
+            || (x as int == file.len() && rem.remove(kk).dom() =~= Set::<Key>::empty() && x as int == (x as int / ft.esz()) * ft.esz()),
+{
+    let r2 = rem.remove(kk);
+    if x as int == file.len() && none_greater(rem, kk) {
+        assert forall|k: Key| !r2.contains_key(k) by {
+            if rem.contains_key(k) && k != kk { lemma_key_total(kk, k); }
+        }
+        assert(r2.dom() =~= Set::<Key>::empty());
+        lemma_fundamental_div_mod_converse(file.len() as int, ft.esz(), n, 0);
+    } else {
+        let nxt = key_of(file, ft, x as int / ft.esz());
+        assert(rem.contains_key(nxt) && rem[nxt] == x && key_lt(kk, nxt) && none_between(rem, kk, nxt));
+        lemma_key_offset(rem, file, ft, n, nxt);
+        assert forall|k2: Key| #[trigger] r2.contains_key(k2) implies !key_lt(k2, nxt) by {
+            lemma_key_total(kk, k2);
+        }
+    }
+}
+/// sending the least remaining record keeps the order invariant
+pub proof fn lemma_fx_push(l: Seq<ChanDatum>, d: ChanDatum, m0: Map<Key, FileOffset>, rem: Map<Key, FileOffset>, file: Seq<u8>, ft: FixedStructType, kk: Key)
+    requires
+        fx_sent_ok(l, m0, rem, file, ft), l.len() >= 1, d is NewMessage, rec_fo(d) >= 0,
+        kk == key_of(file, ft, rec_fo(d) / ft.esz()), is_least(rem, kk), rem[kk] as int == rec_fo(d),
+    ensures fx_sent_ok(l.push(d), m0, rem.remove(kk), file, ft)
+{
+    let l2 = l.push(d);
+    let r2 = rem.remove(kk);
+    assert forall|i: int| 0 < i < l2.len() implies (#[trigger] l2[i]) is NewMessage && rec_fo(l2[i]) >= 0
+            && m0.contains_key(key_of(file, ft, rec_fo(l2[i]) / ft.esz())) && m0[key_of(file, ft, rec_fo(l2[i]) / ft.esz())] as int == rec_fo(l2[i])
+            && !r2.contains_key(key_of(file, ft, rec_fo(l2[i]) / ft.esz())) by {
+        if i < l.len() { assert(l2[i] == l[i]); }
+    }
+    assert forall|i: int, j: int| 0 < i < j < l2.len() implies key_lt(key_of(file, ft, rec_fo(#[trigger] l2[i]) / ft.esz()), key_of(file, ft, rec_fo(#[trigger] l2[j]) / ft.esz())) by {
+        assert(l2[i] == l[i]);
+        if j < l.len() { assert(l2[j] == l[j]); }
+    }
+    assert forall|i: int, k: Key| 0 < i < l2.len() && #[trigger] r2.contains_key(k) implies key_lt(key_of(file, ft, rec_fo(#[trigger] l2[i]) / ft.esz()), k) by {
+        if i < l.len() { assert(l2[i] == l[i]); } else { lemma_key_total(kk, k); }
+    }
+}
+/// dropping the least remaining record without sending it (recoverable read error) keeps the order invariant
+pub proof fn lemma_fx_drop(l: Seq<ChanDatum>, m0: Map<Key, FileOffset>, rem: Map<Key, FileOffset>, file: Seq<u8>, ft: FixedStructType, kk: Key)
+    requires fx_sent_ok(l, m0, rem, file, ft)
+    ensures fx_sent_ok(l, m0, rem.remove(kk), file, ft)
+{}
+
+//@cut fn path=src/bin/s4.rs name=exec_fixedstructprocessor
+//@replace "fn exec_fixedstructprocessor(" "#[verifier::exec_allows_no_decreases_clause] fn exec_fixedstructprocessor("
+//@replace "chan_send_dt: ChanSendDatum," "chan_send_dt: &mut ChanSendDatum,"
+//@replace "&chan_send_dt" "chan_send_dt" count=*
+//@replace "_tid: thread::ThreadId," "_tid: ThreadId,"
+//@spec
+    requires
+        old(chan_send_dt).log().len() == 0,
+        // call-site preconditions (dispatch slice in unit WRK): without them the defensive arm returns without FileInfo
+        thread_init_data.2 is FixedStruct, thread_init_data.3 is None,
+    ensures
+        // C06: FileInfo · NewMessage* · FileSummary on every path
+        closed_ok(final(chan_send_dt).log()),
+        // C08: when the worker reports FileOk, the records sent are exactly the selected records (non-null, in window),
+        // each once, in order of (embedded time, file offset)
+        final(chan_send_dt).log().last()->FileSummary_1 is FileOk && final(chan_send_dt).log()[0]->FileInfo_0 is Some ==>
+            exists|m0: Map<Key, FileOffset>, n: int|
+                #[trigger] represents(m0, fx_file(thread_init_data.0), fx_type(thread_init_data.0), otv(thread_init_data.5), otv(thread_init_data.6), n)
+                && fx_sent_ok(final(chan_send_dt).log().drop_last(), m0, Map::<Key, FileOffset>::empty(), fx_file(thread_init_data.0), fx_type(thread_init_data.0))
+                && fx_complete(final(chan_send_dt).log().drop_last(), m0),
+//@before "return;" 7
+            proof {
+                assert(m0.dom() =~= Set::<Key>::empty());
+                assert(chan_send_dt.log().drop_last() =~= chan_send_dt.log().take(1));
+                assert(represents(m0, fx_file(thread_init_data.0), fx_type(thread_init_data.0), otv(thread_init_data.5), otv(thread_init_data.6), n0));
+            }
+//@before "let mtime = fixedstructreader.mtime();"
+    let ghost m0 = fixedstructreader.map_tvpair_fo@;
+    let ghost file0 = fixedstructreader.blockreader.file();
+    let ghost ft = fixedstructreader.fixedstruct_type;
+    let ghost n0 = fixedstructreader.n();
+    proof { assert(file0 == fx_file(thread_init_data.0) && ft == fx_type(thread_init_data.0)); }
+//@before "let mut buffer: [u8; ENTRY_SZ_MAX]"
+    proof {
+        // the first record handed out is the least of the selection, at a valid record offset
+        let k0 = key_of(file0, ft, fo as int / ft.esz());
+        assert(m0.contains_key(k0) && m0[k0] == fo);
+        lemma_key_offset(m0, file0, ft, n0, k0);
+    }
+//@loop 1
+        invariant_except_break
+            ((fo as int) < file0.len() && is_least(fixedstructreader.map_tvpair_fo@, key_of(file0, ft, fo as int / ft.esz())))
+                || (fo as int == file0.len() && fixedstructreader.map_tvpair_fo@.dom() =~= Set::<Key>::empty()),
+            fo as int == (fo as int / ft.esz()) * ft.esz(),
+        invariant
+            fixedstructreader.wf(), fixedstructreader.blockreader.file() == file0, fixedstructreader.fixedstruct_type == ft, fixedstructreader.n() == n0,
+            keys_ok(m0, file0, ft, n0),
+            open_ok(chan_send_dt.log()),
+            fx_sent_ok(chan_send_dt.log(), m0, fixedstructreader.map_tvpair_fo@, file0, ft),
+            file_err is None ==> (forall|k: Key| #[trigger] m0.contains_key(k) ==> fixedstructreader.map_tvpair_fo@.contains_key(k)
+                                    || exists|i: int| 0 < i < chan_send_dt.log().len() && rec_fo(#[trigger] chan_send_dt.log()[i]) == m0[k] as int),
+            file_err is Some ==> file_err.unwrap() is FileErrIoPath,
+        ensures
+            open_ok(chan_send_dt.log()),
+            file_err is None ==> fx_sent_ok(chan_send_dt.log(), m0, Map::<Key, FileOffset>::empty(), file0, ft),
+            file_err is None ==> fx_complete(chan_send_dt.log(), m0),
+            file_err is Some ==> file_err.unwrap() is FileErrIoPath,
+//@before "let fo_next = match fixedstructreader.process_entry_at"
+        let ghost log_top = chan_send_dt.log();
+        let ghost rem_top = fixedstructreader.map_tvpair_fo@;
+        let ghost kk = key_of(file0, ft, fo as int / ft.esz());
+//@after "let is_last = fixedstructreader.is_last(&fixedstruct);"
+                let ghost rem2 = fixedstructreader.map_tvpair_fo@;
+                proof {
+                    assert(rem2 == rem_top.remove(kk));
+                    lemma_after_entry(rem_top, file0, ft, n0, kk, fo_);
+                }
+//@before "re:\\bfo_\\s*\\n\\s*\\}" 1
+                proof {
+                    let l2 = chan_send_dt.log();
+                    assert(l2 == log_top.push(l2.last()));
+                    assert(rec_fo(l2.last()) == fo as int);
+                    lemma_fx_push(log_top, l2.last(), m0, rem_top, file0, ft, kk);
+                    if file_err is None {
+                        assert forall|k: Key| #[trigger] m0.contains_key(k) implies rem2.contains_key(k) || exists|i: int| 0 < i < l2.len() && rec_fo(#[trigger] l2[i]) == m0[k] as int by {
+                            if k == kk { assert(rec_fo(l2[l2.len() - 1]) == m0[kk] as int); }
+                            else if rem_top.contains_key(k) { }
+                            else {
+                                let i = choose|i: int| 0 < i < log_top.len() && rec_fo(#[trigger] log_top[i]) == m0[k] as int;
+                                assert(l2[i] == log_top[i]);
+                            }
+                        }
+                    }
+                }
+//@before "break;" 1
+                proof {
+                    // Done is returned only at or past the end of the file: nothing remains
+                    assert(fo as int >= file0.len());
+                    assert(fixedstructreader.map_tvpair_fo@ =~= Map::<Key, FileOffset>::empty());
+                }
+//@before "match fo_opt"
+                proof {
+                    let rem2 = fixedstructreader.map_tvpair_fo@;
+                    assert(rem2 == rem_top.remove(kk));
+                    if fo_opt is Some { lemma_after_entry(rem_top, file0, ft, n0, kk, fo_opt.unwrap()); }
+                    lemma_fx_drop(log_top, m0, rem_top, file0, ft, kk);
+                }
+//@before "let summary = fixedstructreader.summary_complete();" 2
+    let ghost log_prev = chan_send_dt.log();
+//@at_end
+    proof {
+        assert(chan_send_dt.log().drop_last() =~= log_prev);
+        if file_err is None {
+            assert(represents(m0, fx_file(thread_init_data.0), fx_type(thread_init_data.0), otv(thread_init_data.5), otv(thread_init_data.6), n0));
+        }
+    }
+//@mutate "fo = fo_next;" "fo = fo + 0;"
+//@mutate "None => break," "None => fo,"
+//@end
 
 // ---- vacuity guards
 pub proof fn reader_wf__canary(r: FixedStructReader, fo: u64)
